@@ -437,9 +437,11 @@ def obligations(tier):
         hard = rule in (UPDATE, CHANGE)
         sels = SELS if (hard or not quick) else ["all", "late"]
         for sel in sels:
-            family("rule", rule, sel, K, 4, 1 if quick else 2, 1 if quick else 2, hard)
+            family("rule", rule, sel, K, 4, 1 if quick else 2, 1, hard)
             if hard and not quick:       # histories that also write through Share.change (no stamp)
                 family("unstamped", rule, sel, 5, 5, 1, 1, True)
+            if rule == CHANGE and not quick:   # three distinct values per field (a -> b -> c, a -> b -> a)
+                family("values3", rule, sel, 4, 4, 1, 2, False)
     for rule in (ONCE, ALWAYS, NEVER, UPDATE, CHANGE):
         for sel in (["all"] if quick else ["all", "late", "two"]):
             Kr, sa, sb = (4, 1, 3) if quick else (5, 2, 4)
